@@ -223,4 +223,41 @@ def dump (enc : Option (Bytes → Bytes)) (dec : Option (Bytes → Option Bytes)
   first names
 
 end Fs
+
+/-! ### Postgres wrapper: listing (db/postgres/dump.go), on the rows of the table in key order -/
+namespace Pg
+
+/-- the continuation of a dump: rows are handed out while they carry the storage-key prefix the listing was
+opened with and decode in the current session -/
+def dumpRest (c : DbCtx) (base : Bytes) : List (Bytes × Bytes) → List (Bytes × Bytes)
+  | [] => []
+  | (kk, vv) :: rest =>
+    if base.isPrefixOf kk then
+      match Fs.decodeKey none c kk with
+      | .ok k => (k, vv) :: dumpRest c base rest
+      | _ => []
+    else []
+
+/-- the rows the query `SELECT key, value ... WHERE key >= $1` returns (the fake server returns them in key order) -/
+def rowsFrom (st : Store) (base : Bytes) : List (Bytes × Bytes) :=
+  (Fs.sortedFiles st).filter (fun r => base ≤ r.1)
+
+/-- `Dump(key)` followed by `Next` until exhaustion; the handle's language is reset as a side effect (the caller
+applies it to the context). -/
+def dump (c : DbCtx) (st : Store) (key : Bytes) : Res (List (Bytes × Bytes)) :=
+  match toKey { c with lang := none } none key with
+  | .err e => .err e
+  | .panic p => .panic p
+  | .ok lk =>
+    match rowsFrom st lk.default with
+    | [] => .err "notfound"
+    | (kk, vv) :: rest =>
+      if lk.default.isPrefixOf kk then
+        match Fs.decodeKey none c kk with
+        | .ok k => .ok ((k, vv) :: dumpRest c lk.default rest)
+        | .err e => .err e
+        | .panic p => .panic p
+      else .err "notfound"
+
+end Pg
 end Vise
